@@ -93,6 +93,7 @@ static std::string genBody(int maxLen)
 {
 	std::string b;
 	int n = R->chance(15) ? 0 : R->chance(50) ? R->below(20) : R->below(maxLen);
+	if (R->chance(2)) n = R->chance(50) ? R->range(15990, 16010) : R->range(30000, 40000); // around / beyond the 16000-byte receive block
 	int mode = R->below(3);
 	for (int i = 0; i < n; i++)
 	{
